@@ -78,7 +78,7 @@ def build_harness(profile="release"):
         return _built[profile]
     if os.environ.get("NL_HARNESS_EXE"):
         # measurement mode (tools/coverage.sh): a pre-built, coverage-instrumented harness; never used by a registered command
-        _built[profile] = os.environ["NL_HARNESS_EXE"]
+        _built[profile] = os.environ.get("NL_HARNESS_EXE_DEBUG", os.environ["NL_HARNESS_EXE"]) if profile == "debug" else os.environ["NL_HARNESS_EXE"]
         return _built[profile]
     os.makedirs(BUILD, exist_ok=True)
     args = ["cargo", "build", "--offline", "--quiet"]
